@@ -37,6 +37,19 @@ CHECKS = {
             "a necessary condition of the property. NOT decided: equality of dense values after a conversion, storage "
             "disjointness of clones (covered by C13's engine when built).",
             TRUST, "DESIGN.md section 3, C14"),
+    "C15": (True,
+            "dispatch-table reconstruction from decorators x MRO resolution (table agreement) + term rewriting of the "
+            "reflected handlers in the free non-commutative algebra",
+            "The registered-function tables are finite but never enumerated by the tests. This check rebuilds them from "
+            "the decorators, proves that every function the property lists is registered (both operand orders for the "
+            "four binary operations), resolves every registered method NAME through the MRO on all 36 operator classes "
+            "and requires a call-compatible signature (1200+ obligations, exhaustive), checks the routing structure of "
+            "__torch_function__ (guarded NotImplementedError, lookup by name on the receiving class, operand swap), and "
+            "PROVES by term rewriting that every reflected one-liner and every operator-second handler computes "
+            "f(other, self, alpha) with the right order, sign, transposes and alpha placement for all operand values. "
+            "NOT decided: that each first-operand handler's value equals torch on the dense tensor (numerical).",
+            TRUST + "; operators' +, @, mul are true sum/product/elementwise product (C01/C02).",
+            "DESIGN.md section 3, C15"),
 }
 
 NOT_APPLICABLE = {
